@@ -1060,18 +1060,22 @@ func runStickyShape(m *model.Model, s *ob.Set) {
 				continue
 			}
 			bo, ok := ifi.Cond.(*ssa.BinOp)
-			if !ok || bo.Op != token.EQL {
+			if !ok {
 				continue
 			}
-			if c, ok := bo.X.(*ssa.Call); ok && model.BuiltinName(&c.Call) == "len" && c.Call.Args[0] == ssa.Value(fn.Params[0]) {
-				if k, ok := model.ConstInt(bo.Y); ok && k == 0 && m.EdgeDominates(gb, 0, b) {
-					empty = true
-				}
+			isLen := func(v ssa.Value) bool {
+				c, ok := stripConv(v).(*ssa.Call)
+				return ok && model.BuiltinName(&c.Call) == "len" && c.Call.Args[0] == ssa.Value(fn.Params[0])
+			}
+			// the operand is empty, however the test is written (== 0, < 1, <= 0, !(> 0) ...)
+			if e, ok := zeroOnEdge(bo, isLen); ok && m.EdgeDominates(gb, e, b) {
+				empty = true
 			}
 			// or: the caller asked about zero digits (the digit-count PARAMETER itself is 0, not
 			// the remainder of its division by the word size)
-			if len(fn.Params) > 1 && bo.X == ssa.Value(fn.Params[1]) {
-				if k, ok := model.ConstInt(bo.Y); ok && k == 0 && m.EdgeDominates(gb, 0, b) {
+			if len(fn.Params) > 1 {
+				isP1 := func(v ssa.Value) bool { return v == ssa.Value(fn.Params[1]) }
+				if e, ok := zeroOnEdge(bo, isP1); ok && m.EdgeDominates(gb, e, b) {
 					empty = true
 				}
 			}
@@ -1085,6 +1089,37 @@ func runStickyShape(m *model.Model, s *ob.Set) {
 		return
 	}
 	s.Check(bad == "", R, "dec.sticky/zero-after-scan", m.Pos(fn.Pos()), fmt.Sprintf("%d `return 0` exit(s), each behind the scan of the lower words (or for an empty operand)", nz), bad+": non-zero digits in lower words are reported as absent (wrong ToNearestEven ties, inexact results reported Exact)")
+}
+
+// zeroOnEdge: the comparison establishes V == 0 on the returned edge, for a V that cannot be
+// negative (a length or an unsigned count): V == 0, V < 1, V <= 0 on the true edge; V != 0, V >= 1,
+// V > 0 on the false edge; and the mirrored forms with the constant on the left.
+func zeroOnEdge(bo *ssa.BinOp, isV func(ssa.Value) bool) (int, bool) {
+	x, y, op := bo.X, bo.Y, bo.Op
+	if _, isC := x.(*ssa.Const); isC {
+		x, y = y, x
+		switch op {
+		case token.LSS:
+			op = token.GTR
+		case token.GTR:
+			op = token.LSS
+		case token.LEQ:
+			op = token.GEQ
+		case token.GEQ:
+			op = token.LEQ
+		}
+	}
+	k, ok := model.ConstInt(y)
+	if !ok || !isV(x) {
+		return 0, false
+	}
+	switch {
+	case op == token.EQL && k == 0, op == token.LSS && k == 1, op == token.LEQ && k == 0:
+		return 0, true
+	case op == token.NEQ && k == 0, op == token.GEQ && k == 1, op == token.GTR && k == 0:
+		return 1, true
+	}
+	return 0, false
 }
 
 func runMustUse(m *model.Model, s *ob.Set) {
